@@ -108,7 +108,15 @@ def gen_spec(prop, rng, tier):
                 path, ks2, fmt, _ = rng.choice(written)
                 fl = [path] + fl if rng.random() < 0.5 else fl + [path]
                 mixed = 1       # holds more than the records of one set: never compared with anything
-            ops.append({'k': 'R', 's': s, 'files': fl})
+            refused = []
+            others = [j for j in range(nsets) if sets[j]['kind'] != sets[ks]['kind'] and (sets[j]['kind'] == 'protein') != (sets[ks]['kind'] == 'protein')]
+            if others and rng.random() < 0.15:
+                # a source of the other kind (nucleotide vs protein) in the middle or at the end: kalign_read_input refuses
+                # it ("different alphabets") and the collection must stay exactly what it was - the caller carries on
+                pos = rng.randint(1, len(fl))
+                fl = fl[:pos] + ['set%d.fa' % rng.choice(others)] + fl[pos:]
+                refused = [pos]
+            ops.append({'k': 'R', 's': s, 'files': fl, 'refused': refused})
             slots[s] = {'set': ks, 'state': 'read', 'mixed': mixed}
         elif k == 'Rw':
             s = rng.choice(empty); path, ks, fmt, mixed = rng.choice(written)
@@ -162,15 +170,18 @@ def gen_spec(prop, rng, tier):
     return spec
 
 
-def emit(p, spec, ops):
-    """append the ops to plan p; returns list of (history op index -> list of plan op indices)"""
+def emit(p, spec, ops, without_refused=False):
+    """append the ops to plan p; returns list of (history op index -> list of plan op indices).  without_refused: the
+    sources a read is expected to refuse are left out (the reference for "a refused source changes nothing")"""
     sets = spec['sets']
     m = []
     for o in ops:
         k = o['k']
         idx = []
         if k == 'R':
-            for f in o['files']:
+            for j, f in enumerate(o['files']):
+                if without_refused and j in (o.get('refused') or []):
+                    continue
                 idx.append(p.op_R(o['s'], f, 1))
             idx.append(p.op_simple('D', o['s']))
         elif k == 'X':
@@ -249,7 +260,7 @@ RESULT_KINDS = ('A', 'X', 'W', 'C', 'CLI', 'M', 'V')
 
 def plans_of(spec):
     out = []
-    w = dict(spec['world']); w['slot_guard'] = 1
+    w = dict(spec['world']); w['slot_guard'] = 1; w['read_fail_keeps'] = 1
     p = plans.base_plan('hist', w, trace=False)
     for fn in sorted(spec['files']):
         p.files.append((fn, 'f', spec['files'][fn].encode('latin-1')))
@@ -258,7 +269,7 @@ def plans_of(spec):
     lidx = p.op_simple('L')
     out.append(('hist', spec.get('_variant', 'plain'), p, {'map': hmap, 'L': lidx}))
     calm = gen.gen_world(__import__('random').Random(spec['junk2']), calm=True)
-    calm['junk_seed'] = spec['junk2']; calm['slot_guard'] = 1
+    calm['junk_seed'] = spec['junk2']; calm['slot_guard'] = 1; calm['read_fail_keeps'] = 1
     for k, o in enumerate(spec['ops']):
         if o['k'] not in RESULT_KINDS:
             continue
@@ -269,7 +280,7 @@ def plans_of(spec):
         for fn in sorted(spec['files']):
             q.files.append((fn, 'f', spec['files'][fn].encode('latin-1')))
         q.stdin = ('tty', b'')
-        smap = emit(q, spec, [spec['ops'][j] for j in sl])
+        smap = emit(q, spec, [spec['ops'][j] for j in sl], without_refused=True)
         out.append(('s%d' % k, spec.get('_variant', 'plain'), q, {'map': smap, 'slice': sl, 'pos': sl.index(k)}, True))
     return out
 
@@ -328,6 +339,18 @@ def judge(spec, results):
         six = bytag[tag][3]
         if sres.crashed():
             V.append({'prop': 'X', 'cls': 'X_CRASH', 'detail': 'slice of call %d ends with %s at %s' % (k, sres.crash_class(), sres.crash_site()), 'sig': 'X:CRASH:%s' % sres.crash_site(), 'tag': tag})
+            continue
+        # slices leave out the sources a read was expected to refuse; if the history's read accepted such a source
+        # after all (the detection saw compatible kinds) the slice is not the same data: not judged
+        accepted = False
+        for j in six['slice']:
+            oj = spec['ops'][j]
+            if oj['k'] == 'R' and oj.get('refused'):
+                for pos in oj['refused']:
+                    rr = hist.op(hix['map'][j][pos]) if pos < len(hix['map'][j]) else None
+                    if rr is None or rr.rc == 0 or rr.f.get('skipped'):
+                        accepted = True
+        if accepted:
             continue
         a = op_result(hist, hix['map'][k])
         b = op_result(sres, six['map'][six['pos']])
